@@ -978,8 +978,7 @@ class QueryBuilder(Selectable, Term):  # type:ignore[misc]
             A copy of the query with the tables replaced.
         """
         self._from = [
-            new_table if table == current_table else table  # type:ignore[misc]
-            for table in self._from
+            _replace_selectable(table, current_table, new_table) for table in self._from
         ]
         if self._insert_table == current_table:
             self._insert_table = new_table
@@ -1847,6 +1846,16 @@ class QueryBuilder(Selectable, Term):  # type:ignore[misc]
         )
 
 
+def _replace_selectable(item: Any, current_table: Table | None, new_table: Table | None) -> Any:
+    """
+    The row source `item` of a FROM or JOIN clause after replacing `current_table` by `new_table`: a sub-query or
+    set operation is rewritten inside, a table is exchanged when it is the one to be replaced.
+    """
+    if isinstance(item, (QueryBuilder, _SetOperation)):
+        return item.replace_table(current_table, new_table)
+    return new_table if item == current_table else item
+
+
 class Joiner:
     def __init__(
         self,
@@ -1941,7 +1950,7 @@ class Join:
         :return:
             A copy of the join with the tables replaced.
         """
-        self.item = self.item.replace_table(current_table, new_table)
+        self.item = _replace_selectable(self.item, current_table, new_table)
 
 
 class JoinOn(Join):
@@ -1992,8 +2001,7 @@ class JoinOn(Join):
         :return:
             A copy of the join with the tables replaced.
         """
-        if self.item == current_table:
-            self.item = new_table  # type:ignore[assignment]
+        self.item = _replace_selectable(self.item, current_table, new_table)
         self.criterion = self.criterion.replace_table(current_table, new_table)
 
 
@@ -2027,8 +2035,7 @@ class JoinUsing(Join):
         :return:
             A copy of the join with the tables replaced.
         """
-        if self.item == current_table:
-            self.item = new_table  # type:ignore[assignment]
+        self.item = _replace_selectable(self.item, current_table, new_table)
         self.fields = [field.replace_table(current_table, new_table) for field in self.fields]
 
 
